@@ -525,7 +525,9 @@ def _replace_string_literals(source: str, replacements: Mapping[ast.AST, str]) -
         if not core.has_ignore_comment(source, core.Range(start, end)):
             new_source = new_source[:start] + new + new_source[end:]
 
-    if not core.is_valid_python(new_source):
+    # A literal over several lines may need the parentheses that it had around it to be one
+    # expression. If it is anything else where it is put back, it is not put back.
+    if not core.is_valid_python(new_source) or not _sources_equivalent(new_source, source):
         return source
 
     return new_source
